@@ -163,4 +163,41 @@ def arrays(inp):
                     a.shape != b.shape or not np.allclose(a, b, atol=1e-12) for a, b in zip(out[1], ref[1])))):
                 bad.append({'api': n, 'layout': kind, 'outcome': out[1] if out[0] == 'raise' else 'different values',
                             'outcome for C-ordered input': ref[1] if ref[0] == 'raise' else 'values'})
+    # objects built from caller arrays must not follow later in-place changes of those arrays
+    import oqupy
+    sz, sx = oqupy.operators.sigma('z'), oqupy.operators.sigma('x')
+    rho = np.array([[0.7, 0.1 - 0.2j], [0.1 + 0.2j, 0.3]])
+    corr = oqupy.PowerLawSD(alpha=0.1, zeta=1, cutoff=2.0, temperature=0.3)
+    builders = {
+        'System': ([sx + 0.3 * sz, oqupy.operators.sigma('-')], lambda h, l: oqupy.System(h, [0.1], [l]),
+                   lambda o: [o.hamiltonian] + list(o.lindblad_operators) + [_liou(o)]),
+        '_check_gammas_lindblad_operators': ([sz, sx], lambda a, b: oqupy.System(0.1 * sz, [0.1, 0.2], [a, b]),
+                                             lambda o: list(o.lindblad_operators) + [_liou(o)]),
+        '_check_hamiltonian': ([sx + 0.3 * sz], lambda h: oqupy.System(h), lambda o: [o.hamiltonian, _liou(o)]),
+        'Bath': ([0.5 * sx + 0.2 * sz], lambda op: oqupy.Bath(op, corr), lambda o: [o.coupling_operator, o.unitary_transform]),
+        'AugmentedMPS': ([rho, sz @ rho @ sz], lambda a, b: oqupy.AugmentedMPS([a, b]), lambda o: list(o.gammas)),
+    }
+    for n in names:
+        if n not in builders:
+            continue
+        vals, build, probe = builders[n]
+        for kind in ('C', 'F'):
+            args = [_variant(v, kind) for v in vals]
+            obj = build(*args)
+            before = [np.array(x) for x in probe(obj)]
+            for a in args:
+                try:
+                    a *= 2.0
+                    a += 1.0
+                except ValueError:
+                    bad.append({'api': n, 'layout': kind, 'caller array was made read-only by the call': True})
+            after = [np.array(x) for x in probe(obj)]
+            if any(x.shape != y.shape or not np.array_equal(x, y) for x, y in zip(before, after)):
+                bad.append({'api': n, 'layout': kind, 'object follows later in-place changes of the caller array': True})
     return {'violates': bool(bad), 'apis': names, 'detail': bad[:6]}
+
+
+def _liou(system):
+    # computed from the stored operators, bypassing the per-object memo
+    from oqupy.system import _liouvillian
+    return _liouvillian(system._hamiltonian, system._gammas, system._lindblad_operators)
